@@ -37,6 +37,13 @@ def run(pid, tier):
                     for network in (2, 3):
                         cases.append(case(n, entry, mode, with_, kind, 1, w, network))
                         n += 1
+                    # a read whose response fills the frame slot to the last byte (and one just below)
+                    if entry == "receive_slice":
+                        for ln in (1100, 1099):
+                            c_ = case(n, entry, mode, with_, kind, 1, w, 2)
+                            c_["slice_len"] = ln
+                            cases.append(c_)
+                            n += 1
                     # the builder calls of a write commute: an explicit length before or after the counter mode
                     if entry.startswith("send_receive"):
                         for lo in ("before", "after"):
